@@ -60,7 +60,7 @@ def generate(rng, tier):
         P = Prog(); preds = []
         base = rng2.choice([0, 3, 1000]) + 9
         for g in gaps:
-            lo = rng2.choice([0.5, 0.25, 1.0, 0.1])
+            lo = rng2.choice([0.5, 0.25, 1.0, 0.1, 0.0, 0.0])          # lo = 0: the float difference IS the gap, exactly (incl. exactly 1e-15)
             for (ra, rb) in ((lo + g, lo), (lo, lo + g)):
                 a = angle_rem(P, ra, base + max(d, 0)); b = angle_rem(P, rb, base + max(-d, 0))
                 s_ = P.add('ASub', rng2.below(4), a, b)
